@@ -24,6 +24,23 @@ def conv(ctype, v):
     return _conv[ctype](v)
 
 
+# value obtained by reading an element of a buffer declared plain `char` that holds byte b: whether plain char is signed is the
+# implementation's choice (it is on the targets nmfu is used on), so the value read is NOT assumed to be b; converting it to uint8_t
+# gives b back
+RD_CHAR = z3.Function("rd_plain_char", I, I)
+
+
+def rd_char(b):
+    return RD_CHAR(b)
+
+
+def un_rd_char(v):
+    """(uint8_t) of a value read from a plain-char element is the byte stored there; None if v is not such a read"""
+    if z3.is_app(v) and v.decl().eq(RD_CHAR):
+        return v.arg(0)
+    return None
+
+
 def b2i(v):
     if z3.is_bool(v):
         return z3.If(v, z3.IntVal(1), z3.IntVal(0))
